@@ -21,7 +21,10 @@ pub struct LspSession {
 
 impl LspSession {
     pub fn start() -> Option<LspSession> {
-        let tw = TempWs::new();
+        LspSession::start_in(TempWs::new())
+    }
+
+    pub fn start_in(tw: TempWs) -> Option<LspSession> {
         let mut c = Client::start(2);
         let sched = Sched::register(&c.thread_tag);
         let tag = c.thread_tag.clone();
